@@ -210,3 +210,306 @@ CONTRACTS["field/summator.pyx:abs_square"]["gen"] = lambda rng, size: {"vec": rn
 CONTRACTS["krige/krigesum.pyx:calc_field_krige_and_variance"]["gen"] = _gen_krige
 CONTRACTS["krige/krigesum.pyx:calc_field_krige"]["gen"] = _gen_krige
 _SET_NUM_THREADS["gen"] = lambda rng, size: {"num_threads": [None, 1, 2, 7][int(rng.integers(0, 4))]}
+
+
+# =====================================================================================================
+# variogram/estimator.pyx
+# =====================================================================================================
+_DEG = "(M_PI / 180.0)"
+_HAV = ("(sin((pos[0, b] - pos[0, a]) * %s / 2.0) ** 2 + cos(pos[0, a] * %s) * cos(pos[0, b] * %s) * "
+        "sin((pos[1, b] - pos[1, a]) * %s / 2.0) ** 2)" % (_DEG, _DEG, _DEG, _DEG))
+_SP = "sprod(pos, dirs, a, b, d, D)"
+# pair (a, b) with a < b; direction test is evaluated on v = x_b - x_a
+_DT = "dirtest(pos, dirs, D, dist_e(pos, a, kk, D), tol, bw, kk, a, d)"
+_VALID = "(not isnan(f[mm, a]) and not isnan(f[mm, b]))"
+_CRESSIE_DEN = "(0.457 + 0.494 / max(c, 1) + 0.045 / (max(c, 1) * max(c, 1)))"
+
+_U = [("f", "A2n"), ("edges", "A1"), ("pos", "A2"), ("dt", "S"), ("D", "I"), ("F", "I")]
+_UARGS = "f, edges, pos, dt, D, F"
+_DP = [("f", "A2n"), ("edges", "A1"), ("pos", "A2"), ("dirs", "A2"), ("tol", "R"), ("bw", "R"),
+       ("fm", "B"), ("D", "I"), ("F", "I")]
+_DARGS = "f, edges, pos, dirs, tol, bw, fm, D, F"
+_MEMBER = ("(inbin(edges, i, dist_e(pos, a, kk, D)) and %s and "
+           "(not fm or forall(dp, 0, d, not dirtest(pos, dirs, D, dist_e(pos, a, kk, D), tol, bw, kk, a, dp))))"
+           % _DT)
+
+SPEC.update({
+    # -------------------------------------------------------------- distances
+    "sqd": dict(doc="squared euclidean distance of points a, b over the first D coordinates",
+                params=[("pos", "A2"), ("a", "I"), ("b", "I"), ("D", "I")], ret="R",
+                sum=("dd", "0", "D"), term="(pos[dd, a] - pos[dd, b]) * (pos[dd, a] - pos[dd, b])"),
+    "dist_e": dict(params=[("pos", "A2"), ("a", "I"), ("b", "I"), ("D", "I")], ret="R",
+                   body="sqrt(sqd(pos, a, b, D))"),
+    "hav_a": dict(doc="haversine argument, lat/lon in degrees",
+                  params=[("pos", "A2"), ("a", "I"), ("b", "I")], ret="R", body=_HAV),
+    "dist_h": dict(doc="great-circle distance on the unit sphere  2 atan2(sqrt a, sqrt(1-a))",
+                   params=[("pos", "A2"), ("a", "I"), ("b", "I")], ret="R",
+                   body="2.0 * atan2(sqrt(hav_a(pos, a, b)), sqrt(1.0 - hav_a(pos, a, b)))"),
+    "dist": dict(params=[("pos", "A2"), ("dt", "S"), ("a", "I"), ("b", "I"), ("D", "I")], ret="R",
+                 body="ite(dt == 'e', dist_e(pos, a, b, D), dist_h(pos, a, b))"),
+    # -------------------------------------------------------------- direction test
+    "sprod": dict(doc="(x_a - x_b) . u_d", ret="R",
+                  params=[("pos", "A2"), ("dirs", "A2"), ("a", "I"), ("b", "I"), ("d", "I"), ("K", "I")],
+                  sum=("kk", "0", "K"), term="(pos[kk, a] - pos[kk, b]) * dirs[d, kk]"),
+    "bd2": dict(doc="squared distance of x_a - x_b from the line spanned by u_d", ret="R",
+                params=[("pos", "A2"), ("dirs", "A2"), ("a", "I"), ("b", "I"), ("d", "I"), ("s", "R"),
+                        ("K", "I")],
+                sum=("kk", "0", "K"),
+                term="((pos[kk, a] - pos[kk, b]) - s * dirs[d, kk]) * ((pos[kk, a] - pos[kk, b]) - s * dirs[d, kk])"),
+    "dirtest": dict(
+        doc="pair vector v = x_a - x_b is in direction d: inside the band (if bandwidth > 0) and "
+            "angle(v, u_d) < tol; conventions: |v| = 0 counts as in-angle, |v.u|/|v| >= 1 as aligned",
+        params=[("pos", "A2"), ("dirs", "A2"), ("D", "I"), ("dst", "R"), ("tol", "R"), ("bw", "R"),
+                ("a", "I"), ("b", "I"), ("d", "I")], ret="B",
+        body="implies(bw > 0.0, sqrt(bd2(pos, dirs, a, b, d, %s, D)) < bw) and "
+             "implies(dst > 0.0 and fabs(%s) / dst < 1.0, acos(fabs(%s) / dst) < tol)" % (_SP, _SP, _SP)),
+    # -------------------------------------------------------------- estimators
+    "est": dict(doc="Matheron (df)^2 / Cressie |df|^(1/2)", params=[("t", "S"), ("x", "R")], ret="R",
+                body="ite(t == 'm', x * x, sqrt(fabs(x)))"),
+    "norm": dict(doc="Matheron S/(2N); Cressie-Hawkins 1/2 (S/N)^4 / (0.457 + 0.494/N + 0.045/N^2); N := max(N, 1)",
+                 params=[("t", "S"), ("s", "R"), ("c", "I")], ret="R",
+                 body="ite(t == 'm', s / (2.0 * max(c, 1)), "
+                      "0.5 * (s / max(c, 1)) ** 4 / %s)" % _CRESSIE_DEN),
+    "inbin": dict(doc="half-open bin", params=[("edges", "A1"), ("i", "I"), ("dst", "R")], ret="B",
+                  body="edges[i] <= dst and dst < edges[i + 1]"),
+    "Cm": dict(doc="number of fields with both values present", ret="I",
+               params=[("f", "A2n"), ("a", "I"), ("b", "I"), ("M", "I")],
+               sum=("mm", "0", "M"), term=_VALID),
+    "Sm": dict(doc="sum over fields of est(f_b - f_a), missing values skipped", ret="R",
+               params=[("f", "A2n"), ("t", "S"), ("a", "I"), ("b", "I"), ("M", "I")],
+               sum=("mm", "0", "M"), term="ite(%s, est(t, f[mm, b] - f[mm, a]), 0.0)" % _VALID),
+    # -------------------------------------------------------------- unstructured: pairs a < kk
+    "CkU": dict(ret="I", params=_U + [("n", "I"), ("i", "I"), ("a", "I"), ("K", "I")],
+                sum=("kk", "a + 1", "K"),
+                term="ite(inbin(edges, i, dist(pos, dt, a, kk, D)), Cm(f, a, kk, F), 0)"),
+    "CjU": dict(ret="I", params=_U + [("n", "I"), ("i", "I"), ("J", "I")],
+                sum=("jj", "0", "J"), term="CkU(%s, n, i, jj, n)" % _UARGS),
+    "SkU": dict(ret="R", params=_U + [("t", "S"), ("n", "I"), ("i", "I"), ("a", "I"), ("K", "I")],
+                sum=("kk", "a + 1", "K"),
+                term="ite(inbin(edges, i, dist(pos, dt, a, kk, D)), Sm(f, t, a, kk, F), 0.0)"),
+    "SjU": dict(ret="R", params=_U + [("t", "S"), ("n", "I"), ("i", "I"), ("J", "I")],
+                sum=("jj", "0", "J"), term="SkU(%s, t, n, i, jj, n)" % _UARGS),
+    # -------------------------------------------------------------- directional
+    # fm = False: the definition (a pair belongs to direction d iff it passes the direction test)
+    # fm = True : first-match semantics of separated directions (kernel level, Appendix A)
+    "CkD": dict(ret="I", params=_DP + [("n", "I"), ("d", "I"), ("i", "I"), ("a", "I"), ("K", "I")],
+                sum=("kk", "a + 1", "K"), term="ite(%s, Cm(f, a, kk, F), 0)" % _MEMBER),
+    "CjD": dict(ret="I", params=_DP + [("n", "I"), ("d", "I"), ("i", "I"), ("J", "I")],
+                sum=("jj", "0", "J"), term="CkD(%s, n, d, i, jj, n)" % _DARGS),
+    "SkD": dict(ret="R", params=_DP + [("t", "S"), ("n", "I"), ("d", "I"), ("i", "I"), ("a", "I"), ("K", "I")],
+                sum=("kk", "a + 1", "K"), term="ite(%s, Sm(f, t, a, kk, F), 0.0)" % _MEMBER),
+    "SjD": dict(ret="R", params=_DP + [("t", "S"), ("n", "I"), ("d", "I"), ("i", "I"), ("J", "I")],
+                sum=("jj", "0", "J"), term="SkD(%s, t, n, d, i, jj, n)" % _DARGS),
+    # -------------------------------------------------------------- along-axis estimator
+    "St": dict(doc="row i against row i+kk over the first J columns", ret="R",
+               params=[("f", "A2"), ("t", "S"), ("kk", "I"), ("i", "I"), ("J", "I")],
+               sum=("jj", "0", "J"), term="est(t, f[i, jj] - f[i + kk, jj])"),
+    "Ss": dict(ret="R", params=[("f", "A2"), ("t", "S"), ("kk", "I"), ("J", "I"), ("I", "I")],
+               sum=("ii", "0", "I"), term="St(f, t, kk, ii, J)"),
+    "Ct": dict(doc="number of pairs in one row", ret="I", params=[("J", "I")], sum=("jj", "0", "J"), term="1"),
+    "Cs": dict(ret="I", params=[("J", "I"), ("I", "I")], sum=("ii", "0", "I"), term="Ct(J)"),
+    "Mt": dict(doc="masked: pair counted iff both cells unmasked", ret="R",
+               params=[("f", "A2"), ("mask", "A2u"), ("t", "S"), ("kk", "I"), ("i", "I"), ("J", "I")],
+               sum=("jj", "0", "J"),
+               term="ite(mask[i, jj] == 0 and mask[i + kk, jj] == 0, est(t, f[i, jj] - f[i + kk, jj]), 0.0)"),
+    "Ms": dict(ret="R", params=[("f", "A2"), ("mask", "A2u"), ("t", "S"), ("kk", "I"), ("J", "I"), ("I", "I")],
+               sum=("ii", "0", "I"), term="Mt(f, mask, t, kk, ii, J)"),
+    "MCt": dict(ret="I", params=[("mask", "A2u"), ("kk", "I"), ("i", "I"), ("J", "I")],
+                sum=("jj", "0", "J"), term="mask[i, jj] == 0 and mask[i + kk, jj] == 0"),
+    "MCs": dict(ret="I", params=[("mask", "A2u"), ("kk", "I"), ("J", "I"), ("I", "I")],
+                sum=("ii", "0", "I"), term="MCt(mask, kk, ii, J)"),
+})
+
+_E = "variogram/estimator.pyx:"
+_IDX = ["0 <= i", "i < pos.shape[1]", "0 <= j", "j < pos.shape[1]"]
+
+CONTRACTS[_E + "dist_euclid"] = dict(
+    requires=["0 <= dim", "dim <= pos.shape[0]", "int32(dim)"] + _IDX,
+    ensures={"dist": "result == dist_e(pos, i, j, dim)"},
+    invariants={"d": ["dist_squared == sqd(pos, i, j, d)"]},
+)
+CONTRACTS[_E + "dist_haversine"] = dict(
+    requires=["pos.shape[0] >= 2"] + _IDX,
+    ensures={"dist": "result == dist_h(pos, i, j)"},
+)
+CONTRACTS[_E + "dir_test"] = dict(
+    requires=["0 <= dim", "dim <= pos.shape[0]", "dim <= direction.shape[1]", "int32(dim)",
+              "0 <= d", "d < direction.shape[0]"] + _IDX,
+    ensures={"in_direction": "result == dirtest(pos, direction, dim, dist, angles_tol, bandwidth, i, j, d)"},
+    invariants={"k#1": ["s_prod == sprod(pos, direction, i, j, d, k)"],
+                "k#2": ["b_dist == bd2(pos, direction, i, j, d, s_prod, k)"]},
+)
+CONTRACTS[_E + "estimator_matheron"] = dict(ensures={"square": "result == f_diff * f_diff"})
+CONTRACTS[_E + "estimator_cressie"] = dict(ensures={"sqrt_abs": "result == sqrt(fabs(f_diff))"})
+
+_NREQ = ["int32(variogram.shape[0])", "counts.shape[0] >= variogram.shape[0]"]
+for _t, _n in (("m", "matheron"), ("c", "cressie")):
+    CONTRACTS[_E + "normalization_" + _n] = dict(
+        modifies=["variogram"], requires=_NREQ,
+        ensures={"normalized": "forall(x, 0, variogram.shape[0], "
+                               "variogram[x] == norm('%s', old(variogram)[x], counts[x]))" % _t},
+        invariants={"i": ["forall(x, 0, i, variogram[x] == norm('%s', entry(variogram)[x], counts[x]))" % _t,
+                          "forall(x, i, variogram.shape[0], variogram[x] == entry(variogram)[x])"]},
+    )
+    CONTRACTS[_E + "normalization_%s_vec" % _n] = dict(
+        modifies=["variogram"],
+        requires=["int32(variogram.shape[0])", "int32(variogram.shape[1])",
+                  "counts.shape[0] >= variogram.shape[0]", "counts.shape[1] >= variogram.shape[1]"],
+        ensures={"normalized": "forall(dd, 0, variogram.shape[0], forall(x, 0, variogram.shape[1], "
+                               "variogram[dd, x] == norm('%s', old(variogram)[dd, x], counts[dd, x])))" % _t},
+        invariants={"d": ["forall(dd, 0, d, forall(x, 0, variogram.shape[1], variogram[dd, x] == "
+                          "norm('%s', entry(variogram)[dd, x], counts[dd, x])))" % _t,
+                          "forall(dd, d, variogram.shape[0], forall(x, 0, variogram.shape[1], "
+                          "variogram[dd, x] == entry(variogram)[dd, x]))"]},
+    )
+CONTRACTS[_E + "choose_estimator_func"] = dict(
+    ensures={"select": "result == ite(estimator_type == 'm', fptr('estimator_matheron'), fptr('estimator_cressie'))"})
+CONTRACTS[_E + "choose_estimator_normalization"] = dict(
+    ensures={"select": "result == ite(estimator_type == 'm', fptr('normalization_matheron'), "
+                       "fptr('normalization_cressie'))"})
+CONTRACTS[_E + "choose_estimator_normalization_vec"] = dict(
+    ensures={"select": "result == ite(estimator_type == 'm', fptr('normalization_matheron_vec'), "
+                       "fptr('normalization_cressie_vec'))"})
+
+_EST_REQ = ["estimator_type == 'm' or estimator_type == 'c'", _NT_REQ]
+
+# ---------------------------------------------------------------------------------- unstructured
+_UA = "f, bin_edges, pos, distance_type, pos.shape[0], f.shape[0]"
+CONTRACTS[_E + "unstructured"] = dict(
+    nan_arrays=["f"],
+    abbrev={"C(b, J)": "CjU(%s, pos.shape[1], b, J)" % _UA,
+            "Sv(b, J)": "SjU(%s, estimator_type, pos.shape[1], b, J)" % _UA,
+            "Ck(b, a, K)": "CkU(%s, pos.shape[1], b, a, K)" % _UA,
+            "Sk(b, a, K)": "SkU(%s, estimator_type, pos.shape[1], b, a, K)" % _UA,
+            "n()": "pos.shape[1]", "B()": "bin_edges.shape[0] - 1"},
+    requires=_shapes32("pos.shape[0]", "pos.shape[1]", "f.shape[0]", "bin_edges.shape[0]") + _EST_REQ + [
+        "distance_type == 'e' or distance_type == 'h'"],
+    raises={"ValueError": "(distance_type != 'e' and pos.shape[0] != 2) or pos.shape[1] != f.shape[1] "
+                          "or bin_edges.shape[0] < 2"},
+    ensures={"shape": "result[0].shape[0] == B() and result[1].shape[0] == B()",
+             "counts": "forall(b, 0, B(), result[1][b] == C(b, n()))",
+             "variogram": "forall(b, 0, B(), result[0][b] == norm(estimator_type, Sv(b, n()), C(b, n())))"},
+    invariants={
+        "i": ["forall(b, 0, i, counts[b] == C(b, n()))", "forall(b, 0, i, variogram[b] == Sv(b, n()))",
+              "forall(b, i, B(), counts[b] == 0)", "forall(b, i, B(), variogram[b] == 0)"],
+        "j": ["counts[i] == C(i, j)", "variogram[i] == Sv(i, j)"],
+        "k": ["counts[i] == C(i, j) + Ck(i, j, k)", "variogram[i] == Sv(i, j) + Sk(i, j, k)"],
+        "m": ["counts[i] == C(i, j) + Ck(i, j, k) + Cm(f, j, k, m)",
+              "variogram[i] == Sv(i, j) + Sk(i, j, k) + Sm(f, estimator_type, j, k, m)"]},
+    post={"m": ["counts[i] == C(i, j) + Ck(i, j, k) + Cm(f, j, k, f.shape[0])",
+                "variogram[i] == Sv(i, j) + Sk(i, j, k) + Sm(f, estimator_type, j, k, f.shape[0])"],
+          "k": ["counts[i] == C(i, j + 1)", "variogram[i] == Sv(i, j + 1)"],
+          "j": ["counts[i] == C(i, n())", "variogram[i] == Sv(i, n())"]},
+)
+
+# ---------------------------------------------------------------------------------- directional
+def _directional(fm):
+    da = "f, bin_edges, pos, direction, angles_tol, bandwidth, %s, pos.shape[0], f.shape[0]" % fm
+    dtj = "dirtest(pos, direction, pos.shape[0], dist_e(pos, j, k, pos.shape[0]), angles_tol, bandwidth, k, j, %s)"
+    member = "(%s and (not %s or forall(dp, 0, dd, not %s)))" % (dtj % "dd", fm, dtj % "dp")
+    return dict(
+        nan_arrays=["f"],
+        abbrev={"C(dd, b, J)": "CjD(%s, pos.shape[1], dd, b, J)" % da,
+                "Sv(dd, b, J)": "SjD(%s, estimator_type, pos.shape[1], dd, b, J)" % da,
+                "Ck(dd, b, a, K)": "CkD(%s, pos.shape[1], dd, b, a, K)" % da,
+                "Sk(dd, b, a, K)": "SkD(%s, estimator_type, pos.shape[1], dd, b, a, K)" % da,
+                "member(dd)": member, "DT(dd)": dtj % "dd",
+                "n()": "pos.shape[1]", "B()": "bin_edges.shape[0] - 1", "Dn()": "direction.shape[0]"},
+        requires=_shapes32("pos.shape[0]", "pos.shape[1]", "f.shape[0]", "bin_edges.shape[0]",
+                           "direction.shape[0]") + _EST_REQ + ["direction.shape[1] >= pos.shape[0]"],
+        raises={"ValueError": "pos.shape[1] != f.shape[1] or bin_edges.shape[0] < 2 or angles_tol <= 0"},
+        ensures={"shape": "result[0].shape[0] == Dn() and result[0].shape[1] == B() and "
+                          "result[1].shape[0] == Dn() and result[1].shape[1] == B()",
+                 "counts": "forall(dd, 0, Dn(), forall(b, 0, B(), result[1][dd, b] == C(dd, b, n())))",
+                 "variogram": "forall(dd, 0, Dn(), forall(b, 0, B(), result[0][dd, b] == "
+                              "norm(estimator_type, Sv(dd, b, n()), C(dd, b, n()))))"},
+        invariants={
+            "i": ["forall(dd, 0, Dn(), forall(b, 0, i, counts[dd, b] == C(dd, b, n())))",
+                  "forall(dd, 0, Dn(), forall(b, 0, i, variogram[dd, b] == Sv(dd, b, n())))",
+                  "forall(dd, 0, Dn(), forall(b, i, B(), counts[dd, b] == 0))",
+                  "forall(dd, 0, Dn(), forall(b, i, B(), variogram[dd, b] == 0))"],
+            "j": ["forall(dd, 0, Dn(), counts[dd, i] == C(dd, i, j))",
+                  "forall(dd, 0, Dn(), variogram[dd, i] == Sv(dd, i, j))"],
+            "k": ["forall(dd, 0, Dn(), counts[dd, i] == C(dd, i, j) + Ck(dd, i, j, k))",
+                  "forall(dd, 0, Dn(), variogram[dd, i] == Sv(dd, i, j) + Sk(dd, i, j, k))"],
+            "d": ["forall(dd, 0, d, counts[dd, i] == entry(counts)[dd, i] + "
+                  "ite(member(dd), Cm(f, j, k, f.shape[0]), 0))",
+                  "forall(dd, 0, d, variogram[dd, i] == entry(variogram)[dd, i] + "
+                  "ite(member(dd), Sm(f, estimator_type, j, k, f.shape[0]), 0.0))",
+                  "forall(dd, d, Dn(), counts[dd, i] == entry(counts)[dd, i])",
+                  "forall(dd, d, Dn(), variogram[dd, i] == entry(variogram)[dd, i])",
+                  "implies(separate_dirs, forall(dp, 0, d, not DT(dp)))"],
+            "m": ["counts[d, i] == entry(counts)[d, i] + Cm(f, j, k, m)",
+                  "variogram[d, i] == entry(variogram)[d, i] + Sm(f, estimator_type, j, k, m)"]},
+        post={"m": ["counts[d, i] == entry(counts)[d, i] + Cm(f, j, k, f.shape[0])",
+                    "variogram[d, i] == entry(variogram)[d, i] + Sm(f, estimator_type, j, k, f.shape[0])"],
+              "k": ["forall(dd, 0, Dn(), counts[dd, i] == C(dd, i, j + 1))",
+                    "forall(dd, 0, Dn(), variogram[dd, i] == Sv(dd, i, j + 1))"],
+              "j": ["forall(dd, 0, Dn(), counts[dd, i] == C(dd, i, n()))",
+                    "forall(dd, 0, Dn(), variogram[dd, i] == Sv(dd, i, n()))"]},
+    )
+
+
+# kernel level (C15, Appendix A): first-match semantics when separate_dirs is set
+CONTRACTS[_E + "directional"] = _directional("separate_dirs")
+
+# definition level (C08): a pair belongs to direction d iff it passes the direction test for d.
+# Lemma assumed as precondition (consequence of _separate_dirs_test in the wrapper, not proved here):
+# separated directions => at most one direction passes for a NON-ZERO pair vector.
+_SEPARATED = ("implies(separate_dirs, forall(a, 0, pos.shape[1], forall(b, a + 1, pos.shape[1], "
+              "forall(d1, 0, direction.shape[0], forall(d2, d1 + 1, direction.shape[0], "
+              "implies(dist_e(pos, a, b, pos.shape[0]) > 0.0, not ("
+              "dirtest(pos, direction, pos.shape[0], dist_e(pos, a, b, pos.shape[0]), angles_tol, bandwidth, b, a, d1) and "
+              "dirtest(pos, direction, pos.shape[0], dist_e(pos, a, b, pos.shape[0]), angles_tol, bandwidth, b, a, d2))))))))")
+_dd = _directional("False")
+_dd["requires"] = _dd["requires"] + [_SEPARATED]
+_dd["splits"] = {"k": [("nonzero_pair_vector", "dist > 0.0", "no_coincident"),
+                       ("zero_pair_vector", "not (dist > 0.0)", "coincident")]}
+CONTRACTS[_E + "directional@definition"] = _dd
+
+# ---------------------------------------------------------------------------------- along axis
+def _structured(masked):
+    if masked:
+        sv = "Ms(f, mask, estimator_type, kk, f.shape[1], %s)"
+        cv = "MCs(mask, kk, f.shape[1], %s)"
+        st = "Mt(f, mask, estimator_type, kk, i, %s)"
+        ct = "MCt(mask, kk, i, %s)"
+    else:
+        sv = "Ss(f, estimator_type, kk, f.shape[1], %s)"
+        cv = "Cs(f.shape[1], %s)"
+        st = "St(f, estimator_type, kk, i, %s)"
+        ct = "Ct(%s)"
+    done = "min(i, n() - kk)"
+    zero = "implies(n() >= 1, variogram[0] == 0 and counts[0] == 0)"
+    c = dict(
+        abbrev={"n()": "f.shape[0]"},
+        requires=_shapes32("f.shape[0]", "f.shape[1]") + _EST_REQ,
+        ensures={"shape": "result.shape[0] == max(n(), 0)",
+                 "lag0": "implies(n() >= 1, result[0] == 0)",
+                 "variogram": "forall(kk, 1, n(), result[kk] == norm(estimator_type, %s, %s))"
+                              % (sv % "n() - kk", cv % "n() - kk")},
+        invariants={
+            "i": ["forall(kk, 1, n(), variogram[kk] == %s)" % (sv % done),
+                  "forall(kk, 1, n(), counts[kk] == %s)" % (cv % done), zero],
+            "j": ["forall(kk, 1, n(), variogram[kk] == %s + ite(kk < n() - i, %s, 0.0))" % (sv % done, st % "j"),
+                  "forall(kk, 1, n(), counts[kk] == %s + ite(kk < n() - i, %s, 0))" % (cv % done, ct % "j"),
+                  zero],
+            "k": ["forall(kk, 1, k, variogram[kk] == %s + %s)" % (sv % done, st % "j + 1"),
+                  "forall(kk, 1, k, counts[kk] == %s + %s)" % (cv % done, ct % "j + 1"),
+                  "forall(kk, k, n(), variogram[kk] == %s + ite(kk < n() - i, %s, 0.0))" % (sv % done, st % "j"),
+                  "forall(kk, k, n(), counts[kk] == %s + ite(kk < n() - i, %s, 0))" % (cv % done, ct % "j"),
+                  zero]},
+        post={"k": ["forall(kk, 1, n(), variogram[kk] == %s + ite(kk < n() - i, %s, 0.0))" % (sv % done, st % "j + 1"),
+                    "forall(kk, 1, n(), counts[kk] == %s + ite(kk < n() - i, %s, 0))" % (cv % done, ct % "j + 1")],
+              "j": ["forall(kk, 1, n(), variogram[kk] == %s)" % (sv % "min(i + 1, n() - kk)"),
+                    "forall(kk, 1, n(), counts[kk] == %s)" % (cv % "min(i + 1, n() - kk)")],
+              "i": ["forall(kk, 1, n(), variogram[kk] == %s)" % (sv % "n() - kk"),
+                    "forall(kk, 1, n(), counts[kk] == %s)" % (cv % "n() - kk")]},
+    )
+    if masked:
+        c["requires"] = c["requires"] + ["mask.shape[0] >= f.shape[0]", "mask.shape[1] >= f.shape[1]"]
+    return c
+
+
+CONTRACTS[_E + "structured"] = _structured(False)
+CONTRACTS[_E + "ma_structured"] = _structured(True)
